@@ -2,6 +2,7 @@ import heapq
 import os
 import secrets
 import sqlite3
+import time
 from dataclasses import dataclass
 from datetime import datetime, timedelta
 from typing import Iterable, Iterator, List, Optional, Tuple
@@ -373,8 +374,8 @@ class IDManager:
 
         with closing(self.conn.cursor()) as cursor:
             # Set some options.
-            cursor.execute("PRAGMA journal_mode=WAL")
             cursor.execute("PRAGMA busy_timeout = 30000")
+            self._enable_wal(cursor)
             # Make sure we have tables for all ID namespaces.
             for id_space in IDSpace.all_values():
                 namespace = id_space.namespace_name()
@@ -416,6 +417,23 @@ class IDManager:
                 """
             )
             self.conn.commit()
+
+    @staticmethod
+    def _enable_wal(cursor, timeout: float = 30.0):
+        """Switches the database to WAL mode. SQLite does not wait for the lock when
+        it changes the journal mode, so when several processes open a fresh database
+        at the same time the switch is retried instead of failing with "database is
+        locked"."""
+        deadline = time.monotonic() + timeout
+        while True:
+            try:
+                # Fetch the answer: the statement (and its lock) is finished only then.
+                cursor.execute("PRAGMA journal_mode=WAL").fetchall()
+                return
+            except sqlite3.OperationalError:
+                if time.monotonic() >= deadline:
+                    raise
+                time.sleep(0.005)
 
     def close(self):
         self.conn.close()
